@@ -98,6 +98,8 @@ pub struct Stats {
     pub terminal_checked: bool,
     pub entitled: bool,
     pub collateral_restated: bool,
+    pub hostile_tried: u64,
+    pub hostile_accepted: u64,
 }
 
 fn set_token_amount(vm: &mut Vm, k: &Pubkey, amount: u64) {
@@ -231,7 +233,39 @@ pub fn run_case(c: &BkCase, stats: &mut Stats) -> Result<(), (String, String)> {
     let mut pre_acc = w.vm.clone();
     let _ = pre_acc.exec(&w.ix_accrue(target_bank));
     let ix = w.ix_bankruptcy(target_bank, victim.accts[0], signer);
-    let r = w.vm.exec(&ix).map_err(|e| err_code(&e));
+    let mut r = w.vm.exec(&ix).map_err(|e| err_code(&e));
+    if r.is_err() {
+        // hostile presentation of the observation accounts: the collateral bank's group left out, replaced by the debt
+        // bank's group, or no observation accounts at all. Whatever the program accepts is judged like an honest success.
+        let ckey = w.banks[cb].key;
+        let glen = w.risk_metas_for_bank(&ckey).len();
+        let mut variants: Vec<solana_program::instruction::Instruction> = vec![];
+        if let Some(pos) = ix.accounts.iter().rposition(|m| m.pubkey == ckey) {
+            let mut v1 = ix.clone();
+            v1.accounts.drain(pos..(pos + glen).min(v1.accounts.len()));
+            variants.push(v1);
+            let mut v2 = ix.clone();
+            v2.accounts.splice(pos..(pos + glen).min(v2.accounts.len()), w.risk_metas_for_bank(&w.banks[db].key));
+            variants.push(v2);
+        }
+        let n_obs = w.risk_metas(&victim.accts[0], None, None).len();
+        if n_obs > 0 && ix.accounts.len() > n_obs {
+            let mut v3 = ix.clone();
+            let keep = v3.accounts.len() - n_obs;
+            v3.accounts.truncate(keep);
+            variants.push(v3);
+        }
+        for v in variants {
+            let mut vm = pre.clone();
+            stats.hostile_tried += 1;
+            if vm.exec(&v).is_ok() {
+                stats.hostile_accepted += 1;
+                w.vm = vm;
+                r = Ok(());
+                break;
+            }
+        }
+    }
     let post = w.vm.clone();
     if let Err(e) = r {
         stats.err = Some(e);
@@ -387,6 +421,8 @@ pub fn run(ctx: &Ctx) -> Report {
             let r = run_case(c, &mut st);
             if counting {
                 rep.eval();
+                rep.add_extra("hostile_observation_lists_tried", st.hostile_tried);
+                rep.add_extra("hostile_observation_lists_accepted", st.hostile_accepted);
                 if st.built {
                     rep.label("built");
                 }
